@@ -66,6 +66,7 @@ type Expect struct {
 	Need      int64 // least number of equal-size nodes to add (band up, equal sizes, U > 0); -1 unknown
 	EqualSize bool
 	FromZero  bool
+	NoSizeKnown bool // scaling from zero with no node size ever observed: exactly one node
 	Starve    bool // documented scale_on_starve condition holds
 	MaxAge    bool // documented max_node_age condition holds
 }
@@ -144,6 +145,15 @@ func (w *World) Expectation(rec *ScanRecord, gr *GroupRec) Expect {
 		} else {
 			ex.Bands[ref.BandUp] = true
 			ex.FromZero = true
+			// scaling from zero: the last observed node size, or exactly one node if none was observed
+			if gr.CachedSize == nil {
+				ex.Need, ex.NoSizeKnown = 1, true
+			} else {
+				sc, sm := ref.Capacity([]*v1.Node{{Status: v1.NodeStatus{Allocatable: gr.CachedSize}}})
+				if sc.Sign() > 0 && sm.Sign() > 0 {
+					ex.Need = ref.Need(gv.ReqCPU, gv.ReqMem, 0, sc, sm, int64(o.ScaleUpThresholdPercent))
+				}
+			}
 		}
 	} else {
 		ex.Bands, ex.Edge = ref.Bands(gv.ReqCPU, gv.CapCPU, gv.ReqMem, gv.CapMem,
@@ -281,6 +291,7 @@ func (w *World) CheckAll(rec *ScanRecord) []Violation {
 	out = append(out, w.M08(rec)...)
 	out = append(out, w.M09(rec)...)
 	out = append(out, w.M10(rec)...)
+	out = append(out, w.M10b(rec)...)
 	out = append(out, w.M11(rec)...)
 	out = append(out, w.M12(rec)...)
 	out = append(out, w.M13(rec)...)
@@ -346,24 +357,35 @@ func (w *World) M01(rec *ScanRecord) []Violation {
 			out = append(out, viol("C01", "force-removed-busy", "%s: force-tainted node %s runs %d group pods", what, v.Name, groupPods))
 			continue
 		}
-		if _, ok := ref.HasTaint(v, ref.TaintKey); !ok {
+		times, tainted := ref.TaintTimes(v)
+		if !tainted {
 			out = append(out, viol("C01", "removed-untainted", "%s: node %s carries no escalator taint in the view", what, v.Name))
 			continue
 		}
-		ts, ok := ref.TaintTime(v)
-		if !ok {
+		if len(times) == 0 {
 			out = append(out, viol("C01", "removed-unreadable-taint-time", "%s: node %s taint value %q is not a time", what, v.Name, briefTaints(v)))
 			continue
 		}
-		age := r.e.T.Sub(ts)
 		soft, hard := o.SoftDeleteGracePeriodDuration(), o.HardDeleteGracePeriodDuration()
-		switch {
-		case age > hard:
-		case age > soft && groupPods == 0:
-		case age > soft:
-			out = append(out, viol("C01", "removed-busy-before-hard", "%s: node %s tainted %v ago (soft %v hard %v) still runs %d group pods", what, v.Name, age, soft, hard, groupPods))
-		default:
-			out = append(out, viol("C01", "removed-before-soft", "%s: node %s tainted only %v ago (soft %v)", what, v.Name, age, soft))
+		// the escalator key may be present more than once (different effects): the removal is
+		// justified if any recorded time satisfies the rule
+		best, bestAge := "removed-before-soft", time.Duration(0)
+		justified := false
+		for _, ts := range times {
+			age := r.e.T.Sub(ts)
+			switch {
+			case age > hard, age > soft && groupPods == 0:
+				justified = true
+			case age > soft:
+				best, bestAge = "removed-busy-before-hard", age
+			default:
+				if best == "removed-before-soft" {
+					bestAge = age
+				}
+			}
+		}
+		if !justified {
+			out = append(out, viol("C01", best, "%s: node %s tainted %v ago (soft %v hard %v) runs %d group pods", what, v.Name, bestAge, soft, hard, groupPods))
 		}
 	}
 	return out
@@ -543,6 +565,12 @@ func (w *World) M05(rec *ScanRecord) []Violation {
 		cur := desiredAtScaleUp(w, rec, gr)
 		targets, _ := requestedTargets(w, rec, gr)
 		clamped := (len(targets) > 0 && targets[0] >= B) || (len(targets) == 0 && cur >= B)
+		if ex.NoSizeKnown {
+			if got != 1 && !clamped {
+				out = append(out, viol("C05", "from-zero-no-size-not-one", "group %d: no node size was ever observed, brought %d nodes instead of exactly one", gr.G, got))
+			}
+			continue
+		}
 		if got > ex.Need+1 {
 			out = append(out, viol("C05", "over-by-two", "group %d: need %d, brought %d (untainted %d + requested %d)", gr.G, ex.Need, got, K, R))
 		}
@@ -842,6 +870,53 @@ func (w *World) M10(rec *ScanRecord) []Violation {
 	return out
 }
 
+// M10b: a protected node does not hold back the removal of other eligible nodes (C10). In a
+// reaping scan (unlocked, in bounds, not scaling up, no trigger, fault-free) that sees a node with
+// a non-empty no-delete annotation among the tainted nodes, every other tainted node that is
+// removable by C01's rule with a clear margin is part of the removal request.
+func (w *World) M10b(rec *ScanRecord) []Violation {
+	var out []Violation
+	for _, gr := range rec.Groups {
+		ex := w.Expectation(rec, gr)
+		if ex.Kind != "band" || ex.Bands[ref.BandUp] || ex.Starve || ex.MaxAge || rec.Faulty() || len(gr.Failed) > 0 {
+			continue
+		}
+		protected := false
+		for _, n := range gr.GV.Tainted {
+			if ref.NoDelete(n) {
+				protected = true
+			}
+		}
+		if !protected {
+			continue
+		}
+		o := &w.Cfg.Groups[gr.G].Opts
+		asked := map[string]bool{}
+		for _, dc := range gr.DeleteCalls {
+			for _, n := range dc.Names {
+				asked[n] = true
+			}
+		}
+		for _, n := range gr.GV.Tainted {
+			if ref.NoDelete(n) {
+				continue
+			}
+			times, _ := ref.TaintTimes(n)
+			if len(times) != 1 {
+				continue
+			}
+			age := gr.Start.Sub(times[0])
+			empty := len(gr.GV.PodsOn(n.Name)) == 0
+			eligible := age > o.HardDeleteGracePeriodDuration() || (age > o.SoftDeleteGracePeriodDuration() && empty)
+			if eligible && !asked[n.Name] {
+				out = append(out, viol("C10", "annotation-holds-back-others", "group %d: node %s (tainted %v ago, empty=%v) is removable but was not part of any removal request while an annotated node is present", gr.G, n.Name, age, empty))
+				break
+			}
+		}
+	}
+	return out
+}
+
 // M11: dry mode performs no writes (C11).
 func (w *World) M11(rec *ScanRecord) []Violation {
 	var out []Violation
@@ -894,6 +969,23 @@ func (w *World) M12(rec *ScanRecord) []Violation {
 				}
 			case e.Kind == sim.ATerminateInASG && e.ASG == "" && e.OK():
 				out = append(out, viol("C12", "terminate-unknown-instance", "while processing group %d: %s", gr.G, e.String()))
+			case e.Kind == sim.ACreateFleet && e.FleetDetail != nil:
+				own := map[string]bool{}
+				if a := w.ASG(gr.G); a != nil {
+					for _, sn := range strings.Split(a.VPCZones, ",") {
+						own[sn] = true
+					}
+				}
+				types := map[string]bool{"": len(w.Cfg.Groups[gr.G].Opts.AWS.InstanceTypeOverrides) == 0}
+				for _, it := range w.Cfg.Groups[gr.G].Opts.AWS.InstanceTypeOverrides {
+					types[it] = true
+				}
+				for _, ov := range e.FleetDetail.Overrides {
+					if !own[ov[0]] || !types[ov[1]] {
+						out = append(out, viol("C12", "fleet-request-built-from-other-group", "while processing group %d: CreateFleet override %v is not made of this group's subnets %q and instance types %v", gr.G, ov, w.ASG(gr.G).VPCZones, w.Cfg.Groups[gr.G].Opts.AWS.InstanceTypeOverrides))
+						break
+					}
+				}
 			case e.Kind == sim.MDeleteNodes || e.Kind == sim.MIncreaseSize:
 				if tg := w.GroupOfASG(e.ASG); tg != gr.G {
 					out = append(out, viol("C12", "cloud-call-on-other-group", "while processing group %d: %s addresses the cloud group of group %d", gr.G, e.String(), tg))
@@ -902,6 +994,14 @@ func (w *World) M12(rec *ScanRecord) []Violation {
 		}
 	}
 	// containment: a non-fatal problem in one group does not stop later groups
+	if rec.Panic != nil {
+		for _, gr := range rec.Groups {
+			if !gr.Processed {
+				out = append(out, viol("C12", "later-group-not-processed-after-panic", "a panic (%v) while an earlier group was processed kept group %d from being processed", rec.Panic, gr.G))
+				break
+			}
+		}
+	}
 	if rec.Panic == nil && !rec.FatalExit {
 		stopAt := -1
 		if rec.Err != nil {
